@@ -150,6 +150,14 @@ type Trace struct {
 	kv    []any
 	lines [][]byte
 	done  bool
+	live  bool // events go straight to the sink (sequential drivers whose subject may crash the process)
+}
+
+// BeginLive starts a trace whose events are written (and flushed, if the sink flushes) at once.
+// Only one live trace may be open at a time.
+func (s *Sink) BeginLive(class, desc string, kv ...any) *Trace {
+	s.Reset(class, desc, kv...)
+	return &Trace{s: s, live: true}
 }
 
 // Begin starts a buffered trace.
@@ -172,7 +180,17 @@ func (t *Trace) Emit(ev string, kv ...any) {
 	b.WriteString("}\n")
 	t.mu.Lock()
 	if !t.done {
-		t.lines = append(t.lines, b.Bytes())
+		if t.live {
+			t.s.mu.Lock()
+			t.s.w.Write(b.Bytes())
+			t.s.n++
+			if t.s.Flush {
+				t.s.w.Flush()
+			}
+			t.s.mu.Unlock()
+		} else {
+			t.lines = append(t.lines, b.Bytes())
+		}
 	}
 	t.mu.Unlock()
 }
@@ -183,6 +201,9 @@ func (t *Trace) End() {
 	t.done = true
 	lines := t.lines
 	t.mu.Unlock()
+	if t.live {
+		return
+	}
 	s := t.s
 	s.mu.Lock()
 	defer s.mu.Unlock()
